@@ -304,7 +304,7 @@ def r06_4(ctx):
 
 
 def r06_5(ctx):
-    rr = RuleResult("R06.5", "WHO", "_LOWER_CACHE is used only by _materialize._lower as the argument of lower_once; lower_once overrides store under self._name", min_instances=4)
+    rr = RuleResult("R06.5", "WHO", "_LOWER_CACHE is used only by _materialize._lower as the argument of lower_once; lower_once overrides store under self._name", min_instances=2)
     repo = ctx.repo
     for m in repo.units:
         for n in ast.walk(m.tree):
